@@ -21,6 +21,8 @@ def monitors(ctx):
 
 def run(ctx):
     monitor.enable(*monitors(ctx))
+    from .. import w_suite
+    w_suite.maybe(ctx)      # thorough tier: the repository's own tests under this property's monitors
     ctx.floor('C14.signatures', 500)
     ctx.floor('C14.binds_compared', 20000)
     ctx.floor('C14.comparisons', 5000)
